@@ -59,21 +59,23 @@ def addMultiple1m (arr cs : List Candle) : Except Err (List Candle) :=
 def generate (m : Nat) (cs : List Candle) : Except Err Candle := Jesse.Gen.generateCandle m cs True
 
 /-- `get_candles(exchange, symbol, timeframe)` for a timeframe of `m` > 1 minutes:
-    `short` = stored 1m candles, `long` = stored candles of the timeframe -/
+    `short` = stored 1m candles, `long` = stored candles of the timeframe.  While a window is forming
+    the forming candle is regenerated from the stored 1m candles; a partial candle of the same window
+    stored at a fill (same timestamp as the window's first minute) is dropped first. -/
 def getCandles (short long : List Candle) (m : Nat) : Except Err (List Candle) :=
   let dif := short.length % m
   if dif = 0 ∧ long.length = 0 then .ok []
   else if dif = 0 then .ok long
-  else match long.getLast? with
-    | none => .error .IndexError            -- storage[long_key][:0][-1]
-    | some l =>
-      match short[short.length - dif]? with
-      | none => .error .IndexError
-      | some s0 =>
-        if l.ts = s0.ts then .ok long
-        else match generate m (short.drop (short.length - dif)) with
-          | .ok g => .ok (long ++ [g])
-          | .error e => .error e
+  else
+    match short[short.length - dif]? with
+    | none => .error .IndexError
+    | some s0 =>
+      let complete := match long.getLast? with
+        | some l => if l.ts = s0.ts then long.dropLast else long
+        | none => long
+      match generate m (short.drop (short.length - dif)) with
+      | .ok g => .ok (complete ++ [g])
+      | .error e => .error e
 
 /-- `get_current_candle` for a timeframe of `m` > 1 minutes (`none` = the empty (0,6) array) -/
 def getCurrentCandle (short long : List Candle) (m : Nat) : Except Err (Option Candle) :=
